@@ -628,6 +628,9 @@ var grammarProbesQuery = []string{
 	`query "query" {a}`, `"query" {a}`, `"fragment" F on T {a}`, `fragment F "on" T {a}`, `fragment "F" on T {a}`, `mutation {a}`, `subscription S @d {a}`, `query query {a}`, `query on {a}`,
 	`{a(x:true y:null z:E w:1 v:1.5 u:"s" t:"""b""" s:$v r:[1 [2]] q:{a:{b:1}})}`, `{a @d @e(x:1)}`, `{a:b(x:1)@d{c}}`, `query Q($a:[[Int!]]!=[[1]] $b:B=null @d){a}`,
 	`{a} {b}`, `{a} fragment F on T {b} query Q {c} fragment G on T {d}`, `type T {a:Int}`, `{a} type T {a:Int}`, `extend type T {a:Int}`, `schema {query:Q}`, `"d" {a}`, `"d" query {a}`,
+	// the grammar bounds no lexeme: numbers of any magnitude and precision, long names and strings, in every value position
+	`{ f(x: 1e309) }`, `query ($v: Big = -1.5E+400) { f }`, `{ f @d(a: [{k: 17.0e999}]) }`, `{ f(x: 1e-400, y: -0.0e-999) }`, `{ f(x: 99999999999999999999999999999, y: -9223372036854775809) }`, `{ f(x: -0, y: 0.0e0, z: 0E+0) }`,
+	`fragment F on T @d(a: 1E999) { f(x: [1e400, [2.5e-500]]) }`, `{ ` + strings.Repeat("a", 300) + `: ` + strings.Repeat("b", 4100) + `(x: "` + strings.Repeat("s", 70000) + `") }`, `{ f(x: ` + strings.Repeat("9", 400) + `.` + strings.Repeat("1", 400) + `e` + strings.Repeat("9", 30) + `) }`,
 	`{...@d{a}}`, `{...{a}}`, `{... on T @d {a}}`, `{...F@d}`, `{a b:c ...F ...{d}}`, `query Q {a} query Q {a}`, `{a(x:$)}`, `{a(x:$1)}`, `{$a}`, `{a:}`, `{a(x:1}`, `{a(:1)}`, `{a(x 1)}`, `query($a Int){a}`, `query($a:){a}`, `query(a:Int){a}`, `{a(x:&)}`, `{a(x:|)}`, `{a|b}`, `{a&b}`, `{a!}`, `{a=b}`, `query($a:Int!!){a}`, `query($a:[Int){a}`, `query($a:[]){a}`,
 }
 
@@ -645,6 +648,8 @@ var grammarProbesSchema = []string{
 	`directive @d on QUERY | MUTATION | SUBSCRIPTION | FIELD | FRAGMENT_DEFINITION | FRAGMENT_SPREAD | INLINE_FRAGMENT | VARIABLE_DEFINITION | SCHEMA | SCALAR | OBJECT | FIELD_DEFINITION | ARGUMENT_DEFINITION | INTERFACE | UNION | ENUM | ENUM_VALUE | INPUT_OBJECT | INPUT_FIELD_DEFINITION`,
 	`"d" schema @a { query: Q mutation: M }`, `"""d""" scalar S @a`, `"d" type T implements A & B @a { "d" a("d" x: [Int!]! = [1] @a): Int @a }`, `"d" interface I implements J { a: Int }`, `"d" union U @a = A | B`, `"d" enum E @a { "d" A @a B }`, `"d" input I @a { "d" a: Int = 1 @a }`, `"d" directive @d("d" a: Int = 1 @a) repeatable on QUERY`,
 	`type T { a: Int } type U { b: Int } extend type T @d schema { query: T } directive @d on OBJECT extend schema @d union V = T`, `type T { a: Int "d" }`, `type T { a: Int } "d"`, `"d" "d" type T`, `type T { "d" "d" a: Int }`, `type T { a(x: Int = $v): Int }`, `type T @d(x: $v)`, `scalar S @d(x: $v)`, `type T { a: Int @d(x: $v) }`,
+	`type T { a(x: Float = 1e309): Int @d(y: -1e-400) }`, `scalar S @d(x: 123456789012345678901234567890, y: 1.5E+999)`, `input I { a: Int = 99999999999999999999 b: Float = -0.0e-999 }`, `enum E { A @d(x: 1e999) }`, `directive @d(a: Float = 17.0e999) on QUERY`,
+	`type ` + strings.Repeat("T", 300) + ` { ` + strings.Repeat("a", 4100) + `: Int @d(s: "` + strings.Repeat("s", 70000) + `") }`,
 	`{a}`, `query {a}`, `fragment F on T {a}`, `type T {a:Int} {a}`, `type T { a }`, `type T { a: }`, `type T { : Int }`, `type T { a(): Int }`, `type T { a(x): Int }`, `input I { a(x:Int): Int }`, `enum E { A: Int }`, `enum E { A = 1 }`, `type T = A`, `scalar S { a: Int }`, `scalar S = A`, `interface I = A`, `type T { a: [Int }`, `type T { a: Int!! }`, `type T { a: [] }`,
 }
 
